@@ -58,7 +58,7 @@ Proof. intros. unfold sessions. rewrite app_length. destruct (cur st); cbn; lia.
 
 Definition is_h (h : hpc) (l : list hpc) : bool :=
   existsb (fun x => match x, h with
-                    | HNone, HNone | HStart, HStart | HRun, HRun | HRetRecv, HRetRecv | HDone, HDone => true
+                    | HNone, HNone | HStart, HStart | HDial, HDial | HRun, HRun | HRetRecv, HRetRecv | HDone, HDone => true
                     | _, _ => false end) l.
 Definition is_m (m : mpc) (l : list mpc) : bool :=
   existsb (fun x => match x, m with
@@ -74,7 +74,7 @@ Definition bg_ok (c : sess) : bool :=
   | OMain => mrel c && negb (hrel c) && is_h (hp c) [HNone; HStart; HDone]
              && eqb (negb (dc c)) (is_h (hp c) [HNone])
   | OHandler => negb (mrel c) && dc c &&
-                ((is_h (hp c) [HRun] && negb (hrel c)) || (is_h (hp c) [HRetRecv; HDone] && hrel c))
+                ((is_h (hp c) [HDial; HRun] && negb (hrel c)) || (is_h (hp c) [HRetRecv; HDone] && hrel c))
   end.
 
 (* the session runSession is in, at main stage m *)
@@ -87,7 +87,7 @@ Definition cur_ok (m : mpc) (c : sess) : bool :=
   | OMain => negb (hrel c) && is_h (hp c) [HNone; HStart; HDone]
              && ((is_m m [MClosing] && negb (mrel c)) || (is_m m [MRetRecv] && mrel c))
   | OHandler => negb (mrel c) && dc c && is_m m [MAnswer; MSelect; MGiveUp]
-                && ((is_h (hp c) [HRun] && negb (hrel c)) || (is_h (hp c) [HRetRecv; HDone] && hrel c))
+                && ((is_h (hp c) [HDial; HRun] && negb (hrel c)) || (is_h (hp c) [HRetRecv; HDone] && hrel c))
   end.
 
 Definition poll_ok (p : Z * nat) : Prop :=
@@ -106,20 +106,27 @@ Record Inv (N : nat) (st : state) : Prop := mkInv {
 Lemma Inv_init : forall N, Inv N (init N).
 Proof. intros N. constructor; cbn; auto. intros _. lia. Qed.
 
-(* effect of one handler step on a well-formed session *)
+(* effect of one handler step on a well-formed session: it keeps the slot (claim, relay dialled), calls tokens.ret()
+   (the dial failed or timed out, datachannelHandler ended), or finishes ret *)
+Inductive hkind := KKeep | KRel | KRecv.
+Definition hkind_of (a : hact) : hkind :=
+  match a with HClaim | HDialOk => KKeep | HDialFail | HDialTimer | HEnd => KRel | HRecv => KRecv end.
+Definition heffect (a : hact) (t : tokens) (c c' : sess) (t' : tokens) : Prop :=
+  match hkind_of a with
+  | KKeep => t' = t /\ holds c' = holds c /\ pend c' = pend c
+  | KRel => t' = tok_dec t /\ holds c = 1 /\ holds c' = 0 /\ pend c = 0 /\ pend c' = 1
+  | KRecv => recv_ready t = true /\ t' = tok_recv t /\ holds c = 0 /\ holds c' = 0 /\ pend c = 1 /\ pend c' = 0
+  end.
+
 Ltac crush_sess c :=
   destruct c as [h d o mr hr]; destruct h, d, o, mr, hr; cbn in *; try discriminate.
 
 Lemma hstep_bg : forall a t c c' t',
   hstep V1 a t c = Some (c', t') -> bg_ok c = true ->
   bg_ok c' = true /\
-  match a with
-  | HClaim => t' = t /\ holds c' = holds c /\ pend c' = pend c
-  | HEnd => t' = tok_dec t /\ holds c = 1 /\ holds c' = 0 /\ pend c = 0 /\ pend c' = 1
-  | HRecv => recv_ready t = true /\ t' = tok_recv t /\ holds c = 0 /\ holds c' = 0 /\ pend c = 1 /\ pend c' = 0
-  end.
+  heffect a t c c' t'.
 Proof.
-  intros a t c c' t' H Hok. destruct a; crush_sess c;
+  intros a t c c' t' H Hok. unfold heffect. destruct a; crush_sess c;
     try (destruct (recv_ready t) eqn:R; try discriminate);
     inversion H; subst; cbn; auto 10.
 Qed.
@@ -127,13 +134,9 @@ Qed.
 Lemma hstep_cur : forall a t m c c' t',
   hstep V1 a t c = Some (c', t') -> cur_ok m c = true ->
   cur_ok m c' = true /\
-  match a with
-  | HClaim => t' = t /\ holds c' = holds c /\ pend c' = pend c
-  | HEnd => t' = tok_dec t /\ holds c = 1 /\ holds c' = 0 /\ pend c = 0 /\ pend c' = 1
-  | HRecv => recv_ready t = true /\ t' = tok_recv t /\ holds c = 0 /\ holds c' = 0 /\ pend c = 1 /\ pend c' = 0
-  end.
+  heffect a t c c' t'.
 Proof.
-  intros a t m c c' t' H Hok. destruct a; crush_sess c; destruct m; cbn in *; try discriminate;
+  intros a t m c c' t' H Hok. unfold heffect. destruct a; crush_sess c; destruct m; cbn in *; try discriminate;
     try (destruct (recv_ready t) eqn:R; try discriminate);
     inversion H; subst; cbn; auto 10.
 Qed.
@@ -178,14 +181,14 @@ Proof.
     assert (Sh := sum_upd holds b i c c' Hn). assert (Sp := sum_upd pend b i c c' Hn).
     unfold tot, set_tok, set_bg in *. cbn [tok bg cur mn polls gets] in *.
     constructor; unfold tot; cbn [tok bg cur mn polls gets]; auto.
-    + destruct a; destruct Heff as [? Heff]; subst; tok_case t; auto; try tauto.
+    + unfold heffect in Heff. destruct (hkind_of a); destruct Heff as [? Heff]; subst; tok_case t; auto; try tauto.
       destruct Heff as [? _]; subst; cbn. destruct (cp =? 0); auto.
     + apply Forall_upd; auto.
-    + destruct a.
+    + unfold heffect in Heff. destruct (hkind_of a).
       * destruct Heff as (-> & E1 & E2). lia.
       * destruct Heff as (-> & E1 & E2 & E3 & E4). tok_case t. lia.
       * destruct Heff as (R & -> & E1 & E2 & E3 & E4). tok_case t. destruct (cp =? 0); cbn; lia.
-    + intros HN. specialize (Ich HN). destruct a.
+    + intros HN. specialize (Ich HN). unfold heffect in Heff. destruct (hkind_of a).
       * destruct Heff as (-> & E1 & E2). lia.
       * destruct Heff as (-> & E1 & E2 & E3 & E4). tok_case t. lia.
       * destruct Heff as (R & -> & E1 & E2 & E3 & E4). tok_case t.
@@ -196,13 +199,13 @@ Proof.
     destruct (hstep_cur _ _ _ _ _ _ Hs Icur) as [Hok Heff].
     unfold tot, set_tok, set_cur in *. cbn [tok bg cur mn polls gets] in *.
     constructor; unfold tot; cbn [tok bg cur mn polls gets]; auto.
-    + destruct a; destruct Heff as [? Heff]; subst; tok_case t; auto; try tauto.
+    + unfold heffect in Heff. destruct (hkind_of a); destruct Heff as [? Heff]; subst; tok_case t; auto; try tauto.
       destruct Heff as [? _]; subst; cbn. destruct (cp =? 0); auto.
-    + destruct a.
+    + unfold heffect in Heff. destruct (hkind_of a).
       * destruct Heff as (-> & E1 & E2). lia.
       * destruct Heff as (-> & E1 & E2 & E3 & E4). tok_case t. lia.
       * destruct Heff as (R & -> & E1 & E2 & E3 & E4). tok_case t. destruct (cp =? 0); cbn; lia.
-    + intros HN. specialize (Ich HN). destruct a.
+    + intros HN. specialize (Ich HN). unfold heffect in Heff. destruct (hkind_of a).
       * destruct Heff as (-> & E1 & E2). lia.
       * destruct Heff as (-> & E1 & E2 & E3 & E4). tok_case t. lia.
       * destruct Heff as (R & -> & E1 & E2 & E3 & E4). tok_case t.
@@ -407,21 +410,21 @@ Qed.
    opened its data channel: runSession releases, and the handler releases again when it ends. *)
 Definition w_answer_fail : list label :=
   [LGet; LGetSend; LPollOffer; LRelayOk; LPcOk; LDcOpen; LH 0 HClaim;
-   LAnswerFail; LGiveUp; LClose; LMainRecv; LH 0 HEnd].
+   LAnswerFail; LGiveUp; LClose; LMainRecv; LH 0 HDialOk; LH 0 HEnd].
 
 (* the data channel opens while the 20 s timer fires: the select takes the timer case *)
 Definition w_select_tie : list label :=
   [LGet; LGetSend; LPollOffer; LRelayOk; LPcOk; LAnswerOk; LDcOpen; LH 0 HClaim;
-   LSelectTimeout; LGiveUp; LClose; LMainRecv; LH 0 HEnd].
+   LSelectTimeout; LGiveUp; LClose; LMainRecv; LH 0 HDialOk; LH 0 HEnd].
 
 Definition w_open (i : nat) : list label :=
-  [LGet; LGetSend; LPollOffer; LRelayOk; LPcOk; LAnswerOk; LDcOpen; LH i HClaim; LSelectOpen].
+  [LGet; LGetSend; LPollOffer; LRelayOk; LPcOk; LAnswerOk; LDcOpen; LH i HClaim; LH i HDialOk; LSelectOpen].
 
 (* capacity 2: a served client, then a doubly released session, then two more served clients *)
 Definition w_capacity : list label :=
   w_open 0 ++
   [LGet; LGetSend; LPollOffer; LRelayOk; LPcOk; LDcOpen; LH 1 HClaim;
-   LAnswerFail; LGiveUp; LClose; LMainRecv; LH 1 HEnd; LH 1 HRecv] ++
+   LAnswerFail; LGiveUp; LClose; LMainRecv; LH 1 HDialOk; LH 1 HEnd; LH 1 HRecv] ++
   w_open 2 ++ w_open 3.
 
 Lemma v0_answer_fail_double_release :
@@ -441,7 +444,7 @@ Proof. eexists. vm_compute. repeat split. Qed.
 (* the same races on the repaired machine: runSession sees that the handler owns the session *)
 Definition w1_answer_fail : list label :=
   [LGet; LGetSend; LPollOffer; LRelayOk; LPcOk; LDcOpen; LH 0 HClaim;
-   LAnswerFail; LGiveUp; LH 0 HEnd; LH 0 HRecv].
+   LAnswerFail; LGiveUp; LH 0 HDialFail; LH 0 HRecv].
 Definition w1_select_tie_late_handler : list label :=
   [LGet; LGetSend; LPollOffer; LRelayOk; LPcOk; LAnswerOk; LSelectTimeout; LGiveUp; LDcOpen;
    LClose; LH 0 HClaim; LMainRecv].
